@@ -14,7 +14,10 @@ from harness.props import c01
 RULE = ('relations on implementation outputs of related executions of sdof.response_series / pseudo_response_spectra / true_response_spectra: '
         'linearity (pairs of records, scalars incl. 0 and negative; 1e-11 of |al|max|ra|+|be|max|rb|), causality (records sharing a prefix; first k samples identical, tolerance 0), '
         'shift (k zeros before a record starting at 0; identical, tolerance 0), period ordering/batching (permutations, sub-lists, singletons, leading 0 kept first; tolerance 0), '
-        'refinement by m in 2..8 with 5 <= T/dt and T/(dt/m) <= 100 (1e-8 of the row peak; spectra never decrease), |alpha| scaling of spectra (1e-12); '
+        'refinement by m in 2..8 with 5 <= T/dt and T/(dt/m) <= 100 (1e-8 of the row peak; spectra never decrease), '
+        'refinement with a long period and a fine step, 2*pi*(dt/m)/T in (7e-4, 1e-3) (and m = 2 with both records below 1e-3), xi in {.02,.05,.3,.7,.99}: velocity rows only, 1e-6 of the row peak, '
+        'rows whose peak is below dt*sum|a|/4 skipped as fragile (the displacement entries of the closed forms cancel to ~1e-6 there on the unchanged tree, so displacement rows are not compared in that regime), '
+        '|alpha| scaling of spectra (1e-12); '
         'plus a reduced C01 structural tie (K_C01) and the coefficient point checks; non-trivial = record not identically zero')
 TRUSTED = [
     'Coq 8.16.1 kernel + vm_compute; Coquelicot, Interval',
@@ -200,6 +203,43 @@ def run(rep, rng, tier):
             viol('true_response_spectra[refinement]', args, s1 if isinstance(s1, ImplError) else s2)
             continue
         add('KGe %s %s %s' % (q(1e-9), qlist(list(s1[0]) + list(s1[1])), qlist(list(s2[0]) + list(s2[1]))), 'true_response_spectra[refinement never decreases S_d, S_v]', args, nz=bool(np.any(a != 0)))
+    # ---- refinement, long period with a fine step: w*dt/m just below 1e-3 for the refined record (T/(dt/m) between 6300 and 9000),
+    #      the coarse record either well above that (m >= 2) or, for m = 2 and 'both', just below it too.
+    #      There the closed forms of the displacement entries b11, b12 cancel (measured on the unchanged tree against an
+    #      80-digit evaluation: relative error up to 4e-6 at xi = 0.99, i.e. 17 eps/(w dt)^3), so only the VELOCITY row is
+    #      compared: its entries b21, b22 are good to 2.3e-9 there, rows agree to 1.5e-9 of their peak (13000 rows measured),
+    #      tolerance 1e-6. A row whose peak is a small remainder of cancelling load terms (peak < dt*sum|a|/4) is fragile: skipped.
+    n_long, n_frag = 0, 0
+    for k in range(10 * N):
+        n = gens.small_len(rng, 2, 60)
+        a, kind = c01.gen_record(rng, n)
+        dt = rng.choice([0.01, 0.02, 0.25, 0.005, 0.002])
+        xi = rng.choice([0.02, 0.05, 0.3, 0.7, 0.99])
+        if k % 5 == 4:      # coarse and refined record both below 1e-3
+            m = 2
+            xs = [rng.uniform(4.6e-4, 4.97e-4) for _ in range(rng.randint(1, 2))]
+        else:
+            m = rng.randint(2, 8)
+            xs = [rng.uniform(7e-4, 9.95e-4) for _ in range(rng.randint(1, 3))]
+        periods = sorted(c01.C2PI * (dt / m) / x for x in xs)
+        fine = refine_record(a, m)
+        if rng.random() < 0.3:
+            fine = np.concatenate([fine, [a[-1]] * (m - 1)])
+        args = {'dt': dt, 'xi': xi, 'periods': periods, 'a': list(map(float, a)), 'm': m, 'fine': list(map(float, fine))}
+        r1, r2 = guarded(rs, a, dt, periods, xi), guarded(rs, fine, dt / m, periods, xi)
+        if isinstance(r1, ImplError) or isinstance(r2, ImplError):
+            viol('response_series[refinement, w*dt < 1e-3]', args, r1 if isinstance(r1, ImplError) else r2)
+            continue
+        v1, v2 = mats(r1)[1], mats(r2)[1]
+        keep = [i for i in range(len(periods)) if np.abs(v1[i]).max() >= 0.25 * dt * np.abs(a).sum() and np.abs(v1[i]).max() > 0]
+        n_frag += len(periods) - len(keep)
+        if not keep:
+            continue
+        n_long += len(keep)
+        args['rows_compared'] = keep
+        add('KRefine %d %s %s %s' % (m, q(1e-6), qmat(v1[keep]), qmat(v2[keep])), 'response_series[refinement, w*dt < 1e-3:v]', args)
+    rep.extra['long_period_refinement_rows'] = n_long
+    rep.extra['long_period_refinement_rows_fragile_skipped'] = n_frag
     # ---- the object API refines the record before integrating (gen_response_spectrum): S_d never below the raw-sample value,
     #      also when dt/target_dt is not an integer
     import eqsig
